@@ -4,6 +4,7 @@ import (
 	"bytes"
 	"encoding/binary"
 	"fmt"
+	"strings"
 
 	"github.com/contiv/libOpenflow/ofbase"
 
@@ -332,6 +333,55 @@ func c19Header(c *fw.Ctx, n int) {
 		}
 		if c.WantSample() && variant == 2 && (n == 7 || n == 8) {
 			c.Sample(map[string]any{"family": "header", "input": fmt.Sprintf("%x", in), "error": fmt.Sprint(err)})
+		}
+		// the same input behind a decoder that is not at its start: k bytes already consumed or skipped (also beyond
+		// the end, as after skipping padding that a truncated element does not have), directly and through a slice
+		for _, skip := range []int{1, 3, 4, 7, 8, n - 8, n - 7, n - 1, n, n + 1, n + 5, n + 8} {
+			if skip < 0 {
+				continue
+			}
+			for mode := 0; mode < 3; mode++ {
+				var herr error
+				var hd ofbase.Header
+				desc := ""
+				p, v, st := fw.Recover(func() {
+					d := ofbase.NewDecoder(in)
+					switch mode {
+					case 0:
+						desc = fmt.Sprintf("after Skip(%d)", skip)
+						d.Skip(skip)
+					case 1:
+						desc = fmt.Sprintf("after Skip(%d) and SkipAlign", skip)
+						d.Skip(skip)
+						d.SkipAlign()
+					default:
+						if skip > n {
+							desc = "-"
+							return
+						}
+						desc = fmt.Sprintf("on a sliced decoder of the last %d bytes after SkipAlign", n-skip)
+						d.Skip(skip)
+						d = d.SliceDecoder(n-skip, 0)
+						d.Skip((n - skip) / 2)
+						d.SkipAlign()
+					}
+					left := d.Length()
+					herr = hd.Decode(d)
+					if left < 8 && herr == nil {
+						c.Violation("Header.Decode", "no-error", "short-input-positioned", fmt.Sprintf("%d-byte input %x, decoder %s (%d bytes left): decoded without error", n, in, desc, left))
+					}
+					if left >= 8 && herr != nil {
+						c.Violation("Header.Decode", "error", "full-input-positioned", fmt.Sprintf("%d-byte input %x, decoder %s (%d bytes left): %v", n, in, desc, left, herr))
+					}
+				})
+				c.Count("header_inputs_positioned", 1)
+				if p && desc != "-" {
+					// a panic raised by the positioning calls themselves is not Header.Decode's; only report frames under it
+					if strings.Contains(st, "ofbase.(*Header).Decode") {
+						c.Violation("Header.Decode", "panic", "positioned:"+fw.LibFrame(st), fmt.Sprintf("%d-byte input %x, decoder %s: %s\n%s", n, in, desc, v, fw.TrimStack(st)))
+					}
+				}
+			}
 		}
 	}
 }
